@@ -258,6 +258,8 @@ func (e *Exec) step(fr *frame, st *State, instr ssa.Instruction) {
 		e.set(fr, in, Val{T: mkSlice(r, "0", l.T, c.T), S: sSlice})
 	case *ssa.MakeChan:
 		r := e.alloc(st)
+		// whoever makes a channel holds the unique permission to close it
+		e.setHeap(st, "G$mayclose", sto(e.tlHeap(st, "G$mayclose"), r, "1"))
 		e.set(fr, in, Val{T: r, S: sInt})
 	case *ssa.MakeClosure:
 		cl := &Closure{Fn: in.Fn.(*ssa.Function)}
@@ -786,8 +788,10 @@ func (e *Exec) stepGo(fr *frame, st *State, in *ssa.Go) {
 		if spec := e.specOf(callee); spec != nil {
 			// a new goroutine holds no locks
 			gst := st.clone()
-			e.regHeap("G$lock", arraySort(sInt, sInt), nil, 'G', "")
-			gst.heaps["G$lock"] = "((as const (Array Int Int)) 0)"
+			for _, n := range tlHeaps {
+				e.regHeap(n, arraySort(sInt, sInt), nil, 'G', "")
+				gst.heaps[n] = "((as const (Array Int Int)) 0)"
+			}
 			env := &SpecEnv{ex: e, st: gst, old: gst, vars: map[string]Val{}, fn: callee, spec: spec, callerFr: fr}
 			names := paramNames(callee, in.Call.Signature())
 			for i, a := range in.Call.Args {
@@ -831,6 +835,33 @@ func (e *Exec) stepGo(fr *frame, st *State, in *ssa.Go) {
 					env.vars[gp.Name] = e.havocVal(st, t, "ghost_"+gp.Name)
 					e.note("%s: ghost parameter %s of spawned %s is not bound by a callghost clause: arbitrary", e.w.pos(in.Pos()), gp.Name, funcKey(callee))
 				}
+			}
+			// permissions the goroutine starts with are handed over by the spawner
+			for _, h := range spec.Holds {
+				x := env.eval(h.E)
+				hn := "G$" + h.Fn
+				mine := sel(e.tlHeap(st, hn), x.T)
+				k := num(int64(h.N))
+				switch h.Fn {
+				case "wgtok":
+					e.oblige(fr, st, "perm:go:"+callee.Name(), "spawner owns the WaitGroup tokens handed to "+callee.Name()+": "+h.Src, in.Pos(), le(k, mine))
+					e.setHeap(st, hn, sto(e.tlHeap(st, hn), x.T, sub(mine, k)))
+				case "wgst":
+					// handing out the right to Wait: the spawner created the
+					// WaitGroup (or may itself Wait) and can no longer Add
+					if h.N != 2 {
+						e.specErrors = append(e.specErrors, "holds wgst(...) must be 2 ("+h.Line+")")
+					}
+					e.oblige(fr, st, "perm:go:"+callee.Name(), "spawner may hand out the right to Wait: "+h.Src, in.Pos(), or(eq(mine, "1"), eq(mine, "2")))
+					e.setHeap(st, hn, sto(e.tlHeap(st, hn), x.T, "2"))
+				case "mayclose":
+					e.oblige(fr, st, "perm:go:"+callee.Name(), "spawner holds the close permission handed to "+callee.Name()+": "+h.Src, in.Pos(), eq(mine, "1"))
+					e.setHeap(st, hn, sto(e.tlHeap(st, hn), x.T, "0"))
+				}
+				gst.heaps[hn] = sto(gst.heaps[hn], x.T, k)
+			}
+			if len(spec.Holds) > 0 {
+				e.trust("permissions (WaitGroup tokens, right to Wait, close permission) are thread-local ghost state: created with the object, moved only by `holds` at go statements, consumed by Done/close")
 			}
 			for _, c := range spec.Requires {
 				v := env.eval(c.E)
@@ -911,7 +942,7 @@ func (e *Exec) stepGo(fr *frame, st *State, in *ssa.Go) {
 			}
 			ws := map[string]bool{}
 			for k := range e.writeSet(callee) {
-				if k == "G$lock" {
+				if isTL(k) {
 					continue
 				}
 				ws[k] = true
@@ -971,12 +1002,110 @@ func (e *Exec) stepGo(fr *frame, st *State, in *ssa.Go) {
 	e.havocAll(st)
 }
 
+// chanDecl: a channel variable of the function family with its declared
+// closing discipline.
+type chanDecl struct {
+	ch    string // the channel (reference term)
+	wg    string // address of the guarding WaitGroup; "" if not in scope here
+	never bool
+	src   string
+}
+
+// chanDecls collects the `closeguard` / `neverclosed` declarations of the
+// function being verified and of the functions it is nested in, resolved in
+// the top frame (a closure names a captured variable by the same name).
+func (e *Exec) chanDecls(st *State) []chanDecl {
+	fr := e.topFrame
+	if fr == nil {
+		return nil
+	}
+	inScope := func(name string) bool {
+		if p, ok := fr.captured[name]; ok && p.T != "" {
+			return true
+		}
+		for _, a := range fr.locals[name] {
+			if pv, ok := fr.vals[a]; ok && pv.T != "" {
+				return true
+			}
+		}
+		for _, p := range fr.fn.Params {
+			if p.Name() == name {
+				return true
+			}
+		}
+		return false
+	}
+	var out []chanDecl
+	for fn := fr.fn; fn != nil; fn = fn.Parent() {
+		spec := e.specOf(fn)
+		if spec == nil {
+			continue
+		}
+		for _, g := range spec.CloseGuards {
+			if !inScope(g[0]) {
+				continue
+			}
+			env := e.specEnv(fr, st, nil)
+			d := chanDecl{ch: env.eval(EIdent{Name: g[0]}).T, src: "closeguard " + g[0] + " " + g[1]}
+			if inScope(g[1]) {
+				d.wg = env.eval(EUn{Op: "&", X: EIdent{Name: g[1]}}).T
+			}
+			out = append(out, d)
+		}
+		for _, n := range spec.NeverClosed {
+			if !inScope(n) {
+				continue
+			}
+			env := e.specEnv(fr, st, nil)
+			out = append(out, chanDecl{ch: env.eval(EIdent{Name: n}).T, never: true, src: "neverclosed " + n})
+		}
+	}
+	return out
+}
+
+// sendOpen: a send on a closed channel panics. The sender must know the
+// channel is open: it holds the unused close permission itself, or the channel
+// is declared never closed, or it is closed only after Wait of a WaitGroup
+// (`closeguard`) and the sender still owns a token of that WaitGroup (or is its
+// creator and has not yet handed out the right to Wait).
+func (e *Exec) sendOpen(fr *frame, st *State, ch string, pos token.Pos) {
+	alts := []string{eq(sel(e.tlHeap(st, "G$mayclose"), ch), "1")}
+	for _, d := range e.chanDecls(st) {
+		switch {
+		case d.never:
+			alts = append(alts, eq(ch, d.ch))
+		case d.wg != "":
+			alts = append(alts, and(eq(ch, d.ch), or(le("1", sel(e.tlHeap(st, "G$wgtok"), d.wg)), eq(sel(e.tlHeap(st, "G$wgst"), d.wg), "1"))))
+		}
+	}
+	e.oblige(fr, st, "chan:send-open", "send on a channel that cannot have been closed (sender holds the close permission, or a token of the WaitGroup its close waits for)", pos, or(alts...))
+	e.trust("a channel is closed only by functions under contract; `closeguard ch wg`: close(ch) needs a completed wg.Wait(), every wg.Add precedes the hand-out of the right to Wait, so a goroutine that owns an Add unit (no Done yet) knows ch is open")
+}
+
+// closePerm: obligations of close(ch).
+func (e *Exec) closePerm(fr *frame, st *State, ch string, pos token.Pos) {
+	mc := e.tlHeap(st, "G$mayclose")
+	e.oblige(fr, st, "chan:close-perm", "close: this goroutine holds the unique, unused permission to close the channel (no double close)", pos, eq(sel(mc, ch), "1"))
+	for _, d := range e.chanDecls(st) {
+		switch {
+		case d.never:
+			e.oblige(fr, st, "chan:close-guard", "close of a channel declared "+d.src, pos, not(eq(ch, d.ch)))
+		case d.wg == "":
+			e.oblige(fr, st, "chan:close-guard", "close of a channel whose guard is not in scope ("+d.src+")", pos, not(eq(ch, d.ch)))
+		default:
+			e.oblige(fr, st, "chan:close-guard", "close only after Wait ("+d.src+")", pos, imp(eq(ch, d.ch), eq(sel(e.tlHeap(st, "G$wgst"), d.wg), "3")))
+		}
+	}
+	e.setHeap(st, "G$mayclose", sto(mc, ch, "0"))
+}
+
 func (e *Exec) stepSend(fr *frame, st *State, in *ssa.Send) {
 	// A channel is not modelled as a data structure. What a function sends is
 	// constrained by the `onsend requires` clauses of its contract and recorded
 	// in ghost variables by `ghostset ... onsend` (`value` is the sent value).
 	x := e.tval(fr, st, in.X)
 	x.GoT = in.X.Type()
+	e.sendOpen(fr, st, e.tval(fr, st, in.Chan).T, in.Pos())
 	if fr != e.topFrame || fr.spec == nil {
 		e.note("%s: channel send in an inlined function: not checked", e.w.pos(in.Pos()))
 		return
@@ -1068,6 +1197,12 @@ func (e *Exec) zeroLocks(st *State, r string, t types.Type) {
 		(n.Obj().Name() == "Mutex" || n.Obj().Name() == "RWMutex") {
 		e.regHeap("G$lock", arraySort(sInt, sInt), nil, 'G', "")
 		e.setHeap(st, "G$lock", sto(e.heapTerm(st, "G$lock"), r, "0"))
+		return
+	}
+	if n, ok := t.(*types.Named); ok && n.Obj().Pkg() != nil && n.Obj().Pkg().Path() == "sync" && n.Obj().Name() == "WaitGroup" {
+		// a fresh WaitGroup: no tokens, created by this goroutine
+		e.setHeap(st, "G$wgtok", sto(e.tlHeap(st, "G$wgtok"), r, "0"))
+		e.setHeap(st, "G$wgst", sto(e.tlHeap(st, "G$wgst"), r, "1"))
 		return
 	}
 	stt, ok := t.Underlying().(*types.Struct)
